@@ -165,6 +165,19 @@ def main(argv=None):
         else:
             violations.append(o)
     discharged = sum(counts.get(s, 0) for s in OKS)
+    xc = {'sampled': 0, 'agree': 0, 'inconclusive': 0, 'disagree': []}
+    for o in obs:
+        x = o.get('xcheck')
+        if not x:
+            continue
+        xc['sampled'] += 1
+        for solver, ans in x.items():
+            if ans == 'unsat':
+                xc['agree'] += 1
+            elif ans == 'sat':
+                xc['disagree'].append({'obligation': o['name'], 'solver': solver})
+            else:
+                xc['inconclusive'] += 1
     hashes = set()
     for o in obs:
         if o['status'] == 'unsat' and not o.get('trivial') and o.get('h') is not None:
@@ -186,6 +199,8 @@ def main(argv=None):
         print('UNCONFIRMED property=%s obligation=%s note=%s' % (a.prop, o['name'], o.get('note')))
     for e in errors[:5]:
         print('TASK-ERROR %s\n%s' % (e['task'], e['error']))
+    for dsg in xc['disagree'][:5]:
+        print('SOLVER-DISAGREEMENT %s says sat where z3 %s said unsat: %s' % (dsg['solver'], z3_version(), dsg['obligation']))
     wall = time.time() - t0
     unknowns = [o for o in obs if o['status'] == 'unknown']
     print('%s tier=%s: %d obligations, %d discharged (%s), %d unknown, %d violations, %d known, %d unconfirmed, %d task errors; %d scenarios, %d solver queries, %.1fs solver, %.1fs wall'
@@ -217,6 +232,8 @@ def main(argv=None):
                 'checker_cmd': './check %s --tier %s' % (a.prop, tier),
                 'trusted_base': ['g++ 12.2 / Eigen 3.4 scalar paths', 'symx recorder (symx/sym.hpp)', 'Python encoder enc/real.py, enc/uf.py (validated per run)', 'z3 %s' % z3_version()],
                 'translator_validation': {'scripts': nval, 'mismatches': len(mism), 'examples': mism[:5]},
+                'solver_crosscheck': {'rule': 'a sample of the solver-discharged Real obligations of this run is exported to SMT-LIB2 and re-decided by /usr/bin/z3 4.8.12 and cvc5 (15 s each); inconclusive = timeout/unknown',
+                                      'obligations_sampled': xc['sampled'], 'answers_unsat': xc['agree'], 'answers_inconclusive': xc['inconclusive'], 'disagreements': xc['disagree'][:5]},
                 'build': binfo, 'typedef_warnings': typedef_warn[:5],
                 'known_findings_hit': [k['match'] for k, _ in known_hits][:10],
                 'task_errors': errors[:5],
@@ -229,7 +246,7 @@ def main(argv=None):
         os.makedirs(os.path.join(VERIF, 'evidence'), exist_ok=True)
         with open(os.path.join(VERIF, 'evidence', a.prop + '.json'), 'w') as f:
             json.dump(ev, f, indent=1, default=str)
-    if violations or unconfirmed or errors:
+    if violations or unconfirmed or errors or xc['disagree'] or mism:
         return 1
     return 0
 
